@@ -423,6 +423,11 @@ static ArenaCfg arena_cfg_from(const std::string& name) {
 
 // "arenasizes": every request size 1..4200 through one fixed script (alloc, alloc, oneshot, free, alloc, neighbours, free...)
 static std::vector<AOp> sizes_script(size_t s, int variant) {
+  // variant 2: the one-shot entry points with every size, as the first request of a block and as a request that needs a new block
+  // (sizes next to the managed block sizes decide between a regular and a custom-sized block)
+  if (variant == 2)
+    return {AOp{A_O, s}, AOp{A_O, 8}, AOp{A_O, s}, AOp{A_OZ, s}, AOp{A_R, 24}, AOp{A_O, s > 8 ? s - 8 : 8}, AOp{A_O, s + 8}, AOp{A_RESET_SOFT, 0}, AOp{A_O, 40}, AOp{A_O, s}, AOp{A_OZ, s + 8},
+            AOp{A_RESET_HARD, 0}, AOp{A_OZ, s}, AOp{A_O, s}};
   AK fr = variant ? A_FREE_ALLOC : A_FREE_REQ;
   return {AOp{A_R, s}, AOp{A_R, s}, AOp{A_O, 8}, AOp{fr, 0}, AOp{A_R, s}, AOp{A_R, s + 1}, AOp{A_R, s > 1 ? s - 1 : 1}, AOp{fr, 0}, AOp{fr, 1},
           AOp{A_RZ, s}, AOp{A_R, s}, AOp{fr, 1}, AOp{fr, 0}, AOp{A_R, s}, AOp{A_RESET_SOFT, 0}, AOp{A_R, s}, AOp{A_RZ, s}, AOp{fr, 0}, AOp{A_R, s}};
@@ -445,7 +450,8 @@ static void part_arenasizes() {
   g_part = "arenasizes";
   size_t maxs = c.thorough() ? 9000 : 4200;
   long long idx = 0;
-  for (size_t s = 1; s <= maxs; s++) for (int variant = 0; variant < 2; variant++) for (size_t stat : {size_t(0), size_t(256)}) {
+  for (size_t s = 1; s <= maxs; s++) for (int variant = 0; variant < 3; variant++) for (size_t stat : {size_t(0), size_t(256)}) {
+    if (variant == 2 && (s % Arena::kAlignment)) continue;   // the one-shot API requires sizes aligned to Arena::kAlignment
     if (!c.mine(idx++)) continue;
     if (c.out_of_time()) return;
     std::string text = "size=" + std::to_string(s) + " variant=" + std::to_string(variant) + " static=" + std::to_string(stat);
@@ -455,7 +461,7 @@ static void part_arenasizes() {
     if (!run_sizes_case(s, variant, stat, opk)) sweep_violation("arenasizes", opk, text);
     else if (s % 997 == 0) c.sample("arenasizes: " + text, 16);
   }
-  g_bounds += "arenasizes:request sizes 1.." + std::to_string(maxs) + " x {free with requested size, free with allocated size} x {heap arena, 256-byte static arena} ";
+  g_bounds += "arenasizes:request sizes 1.." + std::to_string(maxs) + " x {reusable script freeing with requested size, with allocated size, one-shot script} x {heap arena, 256-byte static arena} ";
 }
 
 // ------------------------------------------------------------------------------------------------------------
